@@ -686,7 +686,7 @@ def check_output_names(rep, prog):
     rep.ob('R-TPL', 'Demes.output Split names', oks, 'a split creates one more deme than before, all renamed in a new era', dm.rel, body[0].lineno if body else out.lineno, what='names after a split')
     # end times: accumulated from the present backwards
     t = ast.unparse(out)
-    oke = 'cache[-1].end_time = 0' in t and 'for younger, older in zip(cache[::-1][:-1], cache[::-1][1:])' in t and 'older.end_time = younger.end_time + younger.duration' in t
+    oke = 'cache[-1].end_time = 0' in t and 'for younger, older in zip(cache[::-1][:-1], cache[::-1][1:])' in t and ('older.end_time = younger.end_time + younger.duration' in t or 'older.end_time = younger.duration + younger.end_time' in t)
     rep.ob('R-TPL', 'Demes.output end times', oke, 'end_time(older) = end_time(younger) + duration(younger), starting from 0 at the present', dm.rel, out.lineno, what='event end times accumulate durations backwards in time')
 
 
